@@ -183,7 +183,64 @@ func (te *tableEngine) createPlayerGameAction(playerID string, playerIdx int, ac
 	return pga
 }
 
+/*
+validateMembershipBatch 檢查整批入桌/離桌是否可行 (在更動任何資料前)
+  - leaving players must all be at the table
+  - joining players must be new (or leaving in the same batch), unique within the batch
+  - fixed seats must exist, be unique within the batch and be free (or vacated by the batch)
+  - the table must have room for everybody
+*/
+func (te *tableEngine) validateMembershipBatch(joinPlayers []JoinPlayer, leavePlayerIDs []string) error {
+	leaving := make(map[string]bool)
+	for _, playerID := range leavePlayerIDs {
+		if te.table.FindPlayerIdx(playerID) == UnsetValue {
+			return seat_manager.ErrPlayerNotFound
+		}
+		leaving[playerID] = true
+	}
+
+	joining := make(map[string]bool)
+	seats := make(map[int]bool)
+	for _, joinPlayer := range joinPlayers {
+		if joining[joinPlayer.PlayerID] {
+			return seat_manager.ErrDuplicatePlayers
+		}
+		joining[joinPlayer.PlayerID] = true
+
+		if te.table.FindPlayerIdx(joinPlayer.PlayerID) != UnsetValue && !leaving[joinPlayer.PlayerID] {
+			return seat_manager.ErrDuplicatePlayers
+		}
+
+		if joinPlayer.Seat == seat_manager.UnsetSeatID {
+			continue
+		}
+
+		if joinPlayer.Seat < 0 || joinPlayer.Seat >= te.table.Meta.TableMaxSeatCount {
+			return seat_manager.ErrUnavailableSeat
+		}
+
+		if seats[joinPlayer.Seat] {
+			return seat_manager.ErrDuplicateSeats
+		}
+		seats[joinPlayer.Seat] = true
+
+		if playerIdx := te.table.State.SeatMap[joinPlayer.Seat]; playerIdx != UnsetValue && !leaving[te.table.State.PlayerStates[playerIdx].PlayerID] {
+			return seat_manager.ErrSeatAlreadyIsTaken
+		}
+	}
+
+	if len(te.table.State.PlayerStates)-len(leaving)+len(joinPlayers) > te.table.Meta.TableMaxSeatCount {
+		return seat_manager.ErrNotEnoughSeats
+	}
+
+	return nil
+}
+
 func (te *tableEngine) batchAddPlayers(players []JoinPlayer) error {
+	if err := te.validateMembershipBatch(players, nil); err != nil {
+		return err
+	}
+
 	playerSeatIDs := make(map[string]int)
 	playerRandomSeatIDs := make([]string, 0)
 
@@ -313,6 +370,10 @@ func (te *tableEngine) playersAutoIn() {
 }
 
 func (te *tableEngine) batchRemovePlayers(playerIDs []string) error {
+	if err := te.validateMembershipBatch(nil, playerIDs); err != nil {
+		return err
+	}
+
 	newPlayerStates, newSeatMap, newGamePlayerIndexes := te.calcLeavePlayers(te.table.State.Status, playerIDs, te.table.State.PlayerStates, te.table.Meta.TableMaxSeatCount)
 	te.table.State.PlayerStates = newPlayerStates
 	te.table.State.SeatMap = newSeatMap
